@@ -170,6 +170,8 @@ impl St {
         for d in deps {
             self.deps.entry(item).or_default().insert(*d);
             self.pending.insert(*d);
+            // a completed item that is asked for again is pending again
+            self.completed.remove(d);
         }
     }
 }
@@ -442,8 +444,10 @@ fn replay_trace(trace: &[String], conf: &mut Conf) -> Result<(), (String, String
                 conf.self_deps_seen += 1;
             }
             if deps.iter().any(|d| s.completed.contains(d)) {
+                // the type checker asks for an item that has already completed once: that re-registers it as pending (it is
+                // offered and completed again).  The breadth-first model does not generate this event; the replay checks it
+                // against the ghost scheduler directly (every later step is still compared with the real TopoSort's answers)
                 conf.deps_on_completed += 1;
-                return Err(("alphabet:dependency-on-completed-item".into(), op.clone()));
             }
             s.add_deps(item, &deps);
         }
